@@ -1,4 +1,6 @@
 pub mod c01;
+pub mod c02;
+pub mod c03;
 pub mod c04;
 pub mod c05;
 pub mod c06;
@@ -18,6 +20,8 @@ pub fn dispatch(id: &str, tier: Tier, seed: u64) -> Option<i32> {
     Some(match id {
         "C01" => c01::run("C01", tier, seed),
         "C18" => c01::run("C18", tier, seed),
+        "C02" => c02::run(tier, seed),
+        "C03" => c03::run(tier, seed),
         "C04" => c04::run(tier, seed),
         "C05" => c05::run(tier, seed),
         "C06" => c06::run(tier, seed),
